@@ -111,6 +111,8 @@ def q__MessageSigner__pair_matches_key(self, pair, key, is_compressed):
 def q__MessageSigner__verify_message(self, key_or_address, signature, message=None, msg_hash=None):
     if isinstance(key_or_address, str):
         key = self._network.parse.address(key_or_address)
+        if key is None:
+            return False
     else:
         key = key_or_address
     try:
